@@ -157,6 +157,18 @@ def loop_facts(fn, h, body):
                         K.add(CL_BYTES[tyname])
         if nm in ("stride", "size") and "layout" in c.callee:
             bounds.add(nm)
+    # the bound may be computed before the loop (`let len = ty.stride(); while off + 8 <= len ..`): follow the guard's operands
+    for u, v in fn.loop_exit_edges(h, body):
+        if fn.blocks[u]["t"]["k"] != "switch":
+            continue
+        ch = fn.switch_operand(u, depth=14)
+        for n in walk_chain(ch if isinstance(ch, dict) else {}):
+            if n.get("kind") == "call" and short(n["callee"]) in ("stride", "size") and "layout" in n["callee"]:
+                bounds.add(short(n["callee"]))
+            elif n.get("kind") == "call" and short(n["callee"]) not in ("stride", "size") and not any(short(n["callee"]) == k_ for k_ in ("into", "from", "try_into", "unwrap", "clone", "deref")):
+                bounds.add("call:" + short(n["callee"]))
+            elif n.get("kind") in ("param", "cut") and n.get("name") not in ("off", "offset", "i"):
+                bounds.add("unknown:" + str(n.get("name")))
     # running offset: the local stored-at / loaded-from; take constant addends to a named mutable local
     for i in body:
         for s in fn.blocks[i]["s"]:
@@ -265,8 +277,13 @@ def r02c(ctx, run):
                     run.instances.append({"rule": run.rule.id, "site": stores[0].site(), "what": what + " (same finding, other width)", "verdict": "finding"})
             elif "size" in bounds:
                 run.ok(stores[0].site(), what)
+            elif not bounds:
+                run.exempt(stores[0].site(), what, "bound is a constant (fixed-size word copy)")
             else:
-                run.exempt(stores[0].site(), what, "bound is not a layout query (fixed-size word copy)")
+                key = "copy-loop-bound-unknown"
+                if not any(f["key"].endswith(owner + "/" + key) for f in run.findings):
+                    run.finding(owner, key, stores[0].file, stores[0].ln, what + ": cannot establish that the copy is bounded by the destination type's size() (the bound comes from %s)"
+                                % ", ".join(sorted(bounds)))
     if n < 6:
         raise LookupError("aggregate copy sites found: %d" % n)
 
